@@ -1,8 +1,10 @@
 (** Tie between the request-loop model (Loop/Model.v) and the Go source: the table
     go2coq extracts from p9/server.go, p9/handlers.go, p9/transport.go (gen/LoopGen.v,
     regenerated on every run) must satisfy the ordering/locking facts the model is
-    built on, and must equal the table the model was written against.  A reordering
-    of handleRequest re-opens exactly these obligations. *)
+    built on, and must equal the table the model was written against.  go2coq prints
+    local identifiers (parameters, :=, var) as v0, v1, ... in order of appearance and
+    the receiver as cs / t, so renaming a local leaves the table unchanged; a
+    reordering or restructuring of handleRequest re-opens exactly these obligations. *)
 From Coq Require Import String List Bool Arith.
 From P9V Require Import gen.LoopGen.
 Import ListNotations.
@@ -41,11 +43,19 @@ Definition before (pa pb : string * list string * list string -> bool) evs : boo
 Definition starttag_under_recvMu := all_under "StartTag" "recvMu" handleRequest_events.
 Definition capture_under_recvMu := all_under "TagDone" "recvMu" handleRequest_events.
 Definition capture_guarded :=
-  forallb (fun e => if is_ev "TagDone" e then smem "started && f.OldTag != tag" (ev_conds e) && smem "f, ok := m.(*tflush); ok" (ev_conds e) else true) handleRequest_events.
+  forallb (fun e => if is_ev "TagDone" e then smem "v6 && v8.OldTag != v0" (ev_conds e) && smem "v8, v7 := v1.(*tflush); v7" (ev_conds e) else true) handleRequest_events.
 Definition starttag_before_capture := before (is_ev "StartTag") (is_ev "TagDone") handleRequest_events.
 Definition capture_before_spawn := before (is_ev "TagDone") (is_ev "spawn") handleRequest_events.
 Definition spawn_before_unlock := before (is_ev "spawn") (is_main "recvMu.Unlock") handleRequest_events
                                   && all_under "spawn" "recvMu" handleRequest_events.
+(** recvIdle counts exactly the goroutines waiting for recvMu: +1 before recvMu.Lock, -1 right after it (under recvMu,
+    before recv); the spawn test reads it under recvMu (the condition of the spawn event) *)
+Definition idle_counted :=
+  before (is_ev "atomic.AddInt32(&cs.recvIdle, 1)") (is_ev "recvMu.Lock") handleRequest_events
+  && before (is_ev "recvMu.Lock") (is_ev "atomic.AddInt32(&cs.recvIdle, -1)") handleRequest_events
+  && before (is_ev "atomic.AddInt32(&cs.recvIdle, -1)") (is_ev "recv") handleRequest_events
+  && all_under "atomic.AddInt32(&cs.recvIdle, -1)" "recvMu" handleRequest_events
+  && forallb (fun e => if is_ev "spawn" e then smem "atomic.LoadInt32(&cs.recvIdle) == 0" (ev_conds e) else true) handleRequest_events.
 Definition recv_under_recvMu := all_under "recv" "recvMu" handleRequest_events && all_under "set-shutdown:true" "recvMu" handleRequest_events.
 Definition handle_after_unlock := before (is_main "recvMu.Unlock") (is_ev "handle") handleRequest_events.
 Definition cleartag_after_handle := before (is_ev "handle") (is_ev "ClearTag") handleRequest_events.
@@ -64,6 +74,7 @@ Lemma tie_capture_guarded : capture_guarded = true. Proof. vm_compute. reflexivi
 Lemma tie_starttag_before_capture : starttag_before_capture = true. Proof. vm_compute. reflexivity. Qed.
 Lemma tie_capture_before_spawn : capture_before_spawn = true. Proof. vm_compute. reflexivity. Qed.
 Lemma tie_spawn_before_unlock : spawn_before_unlock = true. Proof. vm_compute. reflexivity. Qed.
+Lemma tie_idle_counted : idle_counted = true. Proof. vm_compute. reflexivity. Qed.
 Lemma tie_recv_under_recvMu : recv_under_recvMu = true. Proof. vm_compute. reflexivity. Qed.
 Lemma tie_handle_after_unlock : handle_after_unlock = true. Proof. vm_compute. reflexivity. Qed.
 Lemma tie_cleartag_after_handle : cleartag_after_handle = true. Proof. vm_compute. reflexivity. Qed.
@@ -75,41 +86,52 @@ Lemma tie_wait_set_only_in_handleRequest : wait_set_only_in_handleRequest = true
 (** tflush.handle waits only on the captured channel; the tag table operations are what the model's
     LStart / LCapture / LClear steps say; send writes the frame with one vectored write *)
 Lemma tie_tflush_handle : body_tflush_handle = ["if t.wait != nil { <-t.wait }"; "return &rflush{}"]. Proof. reflexivity. Qed.
-Lemma tie_StartTag : body_connState_StartTag = ["cs.tagMu.Lock()"; "defer cs.tagMu.Unlock()"; "_, ok := cs.tags[t]"; "if ok { return false }"; "cs.tags[t] = make(chan struct{})"; "return true"]. Proof. reflexivity. Qed.
-Lemma tie_ClearTag : body_connState_ClearTag = ["cs.tagMu.Lock()"; "defer cs.tagMu.Unlock()"; "ch, ok := cs.tags[t]"; "if !ok { panic(""unused tag cleared"") }"; "delete(cs.tags, t)"; "close(ch)"]. Proof. reflexivity. Qed.
-Lemma tie_TagDone : body_connState_TagDone = ["cs.tagMu.Lock()"; "defer cs.tagMu.Unlock()"; "ch, ok := cs.tags[t]"; "if !ok { return nil }"; "return ch"]. Proof. reflexivity. Qed.
+Lemma tie_StartTag : body_connState_StartTag = ["cs.tagMu.Lock()"; "defer cs.tagMu.Unlock()"; "v0, v1 := cs.tags[v2]"; "if v1 { return false }"; "cs.tags[v2] = make(chan struct{})"; "return true"]. Proof. reflexivity. Qed.
+Lemma tie_ClearTag : body_connState_ClearTag = ["cs.tagMu.Lock()"; "defer cs.tagMu.Unlock()"; "v0, v1 := cs.tags[v2]"; "if !v1 { panic(""unused tag cleared"") }"; "delete(cs.tags, v2)"; "close(v0)"]. Proof. reflexivity. Qed.
+Lemma tie_TagDone : body_connState_TagDone = ["cs.tagMu.Lock()"; "defer cs.tagMu.Unlock()"; "v0, v1 := cs.tags[v2]"; "if !v1 { return nil }"; "return v0"]. Proof. reflexivity. Qed.
 Lemma tie_handleRequests : body_connState_handleRequests = ["for { if !cs.handleRequest() { return } }"]. Proof. reflexivity. Qed.
-Lemma tie_send_writes : send_writes = ["vecs.WriteTo(w)"]. Proof. reflexivity. Qed.
+Lemma tie_send_writes : send_writes = ["v0.WriteTo(v1)"]. Proof. reflexivity. Qed.
 
 (** the handlers start no goroutine of their own: every backend call made on behalf of a request
     happens inside its handle (what C14's "stopped executing" rests on); the only go statements
     are the receiver hand-off and the accept loop *)
-Lemma tie_go_sites : go_sites = ["connState.handleRequest"; "Server.ServeContext"; "Server.ServeContext"]. Proof. reflexivity. Qed.
+Lemma tie_go_sites : go_sites = ["server.go:connState.handleRequest"; "server.go:Server.ServeContext"; "server.go:Server.ServeContext"]. Proof. reflexivity. Qed.
+(** ... no timers, and the only channel sends are the client's completion signals and the message pool *)
+Lemma tie_timer_sites : timer_sites = []. Proof. reflexivity. Qed.
+Lemma tie_chan_send_sites : chan_send_sites = ["client.go:Client.handleOne"; "client.go:Client.handleOne"; "client.go:Client.waitAndRecv"; "messages.go:registry.put"]. Proof. reflexivity. Qed.
 
 (** the request loop touches only its own connection's state (plus the logger, the message
     registry and the buffer pool): connections share nothing here (Loop/Multi.v) *)
 Lemma tie_loop_state : loop_state = ["cs.ClearTag"; "cs.StartTag"; "cs.TagDone"; "cs.handle"; "cs.handleRequest"; "cs.handleRequests"; "cs.messageSize"; "cs.pendingWg"; "cs.r"; "cs.recvIdle"; "cs.recvMu"; "cs.recvShutdown"; "cs.sendMu"; "cs.server.log"; "cs.t"; "cs.tagMu"; "cs.tags"; "var dataPool"; "var msgDotLRegistry"]. Proof. reflexivity. Qed.
 
+(** which tag / message / reply each call gets: recv binds (tag, message, error); StartTag, ClearTag and both
+    sends use that tag; handle gets that message; the second send gets handle's result.  Locals are numbered
+    in order of appearance, so this is insensitive to their names. *)
+Definition expected_calls : list string := ["v0, v1, v2 := recv(cs.server.log, cs.t, v3, msgDotLRegistry.get)"; "v6 = cs.StartTag(v0)"; "v8.wait = cs.TagDone(v8.OldTag)"; "v9 := send(cs.server.log, cs.r, v0, newErr(v2))"; "v10 := cs.handle(v1)"; "cs.ClearTag(v0)"; "v2 = send(cs.server.log, cs.r, v0, v10)"; "msgDotLRegistry.put(v1)"].
+Lemma tie_calls : handleRequest_calls = expected_calls. Proof. reflexivity. Qed.
+
 (** the whole table, as the model was written against it *)
 Definition expected_events : list (string * list string * list string) := [
+  ("atomic.AddInt32(&cs.recvIdle, 1)", [], []);
   ("recvMu.Lock", [], []);
+  ("atomic.AddInt32(&cs.recvIdle, -1)", [], ["recvMu"]);
   ("recvMu.Unlock", ["cs.recvShutdown"], ["recvMu"]);
   ("return", ["cs.recvShutdown"], []);
   ("recv", [], ["recvMu"]);
-  ("set-shutdown:true", ["errSocket, ok := err.(ConnError); ok"], ["recvMu"]);
-  ("recvMu.Unlock", ["errSocket, ok := err.(ConnError); ok"], ["recvMu"]);
-  ("return", ["errSocket, ok := err.(ConnError); ok"], []);
-  ("StartTag", ["err == nil || err == io.EOF"], ["recvMu"]);
-  ("set-wait:nil", ["err == nil || err == io.EOF"; "f, ok := m.(*tflush); ok"], ["recvMu"]);
-  ("TagDone", ["err == nil || err == io.EOF"; "f, ok := m.(*tflush); ok"; "started && f.OldTag != tag"], ["recvMu"]);
-  ("set-wait:cs.TagDone(f.OldTag)", ["err == nil || err == io.EOF"; "f, ok := m.(*tflush); ok"; "started && f.OldTag != tag"], ["recvMu"]);
+  ("set-shutdown:true", ["v5, v4 := v2.(ConnError); v4"], ["recvMu"]);
+  ("recvMu.Unlock", ["v5, v4 := v2.(ConnError); v4"], ["recvMu"]);
+  ("return", ["v5, v4 := v2.(ConnError); v4"], []);
+  ("StartTag", ["v2 == nil || v2 == io.EOF"], ["recvMu"]);
+  ("set-wait:nil", ["v2 == nil || v2 == io.EOF"; "v8, v7 := v1.(*tflush); v7"], ["recvMu"]);
+  ("TagDone", ["v2 == nil || v2 == io.EOF"; "v8, v7 := v1.(*tflush); v7"; "v6 && v8.OldTag != v0"], ["recvMu"]);
+  ("set-wait:cs.TagDone(v8.OldTag)", ["v2 == nil || v2 == io.EOF"; "v8, v7 := v1.(*tflush); v7"; "v6 && v8.OldTag != v0"], ["recvMu"]);
   ("spawn", ["atomic.LoadInt32(&cs.recvIdle) == 0"], ["recvMu"]);
   ("recvMu.Unlock", [], ["recvMu"]);
-  ("sendMu.Lock", ["err != nil && err != io.EOF"], []);
-  ("send", ["err != nil && err != io.EOF"], ["sendMu"]);
-  ("sendMu.Unlock", ["err != nil && err != io.EOF"], ["sendMu"]);
-  ("return", ["err != nil && err != io.EOF"], []);
-  ("return", ["!started"], []);
+  ("sendMu.Lock", ["v2 != nil && v2 != io.EOF"], []);
+  ("send", ["v2 != nil && v2 != io.EOF"], ["sendMu"]);
+  ("sendMu.Unlock", ["v2 != nil && v2 != io.EOF"], ["sendMu"]);
+  ("return", ["v2 != nil && v2 != io.EOF"], []);
+  ("return", ["!v6"], []);
   ("handle", [], []);
   ("ClearTag", [], []);
   ("sendMu.Lock", [], []);
